@@ -41,6 +41,10 @@ where
 /// `random` = Some(maxlen): the case does not come from an enumeration; it is counted as
 /// non-trivial only if it lies outside every exhaustively enumerated sub-space.
 pub fn check(b: &[u8], st: &mut Stats, random: Option<u32>) {
+    netted(st, || case_of(b), b.len(), |st| check_inner(b, st, random));
+}
+
+fn check_inner(b: &[u8], st: &mut Stats, random: Option<u32>) {
     st.eval();
     let mut accepted_any = false;
     let ascii_alnum = b.iter().all(|c| model::is_alnum(*c));
